@@ -190,3 +190,24 @@ def write_evidence(prop, tier, seed, ctx, wall, violations, known_hits, extra=No
         json.dump(ev, h, indent=1, default=str)
     os.replace(tmp, path)
     return path
+
+
+def include(ctx, module, fns, to_rule):
+    """run rules of another property inside this one (shared necessary conditions): obligations are re-labelled `to_rule`, keeping the
+    original rule id in the construct key and the detail text"""
+    sub = Ctx(ctx.ix, module.__name__.split('.')[-1], ctx.tier)
+    for fn in fns:
+        fn(sub)
+    for o in sub.obligations:
+        if not o.rule.startswith(to_rule.split('-')[0]):
+            o.construct = o.construct.replace(o.rule, to_rule + ':' + o.rule)
+            o.detail = f'[{o.rule}] ' + o.detail
+            o.rule = to_rule
+        ctx.obligations.append(o)
+    for k, v in sub.counters.items():
+        if isinstance(v, set):
+            ctx.counters[k] |= v
+        else:
+            ctx.counters[k] += v
+    ctx.notes.extend(getattr(sub, 'notes', []))
+    return sub
